@@ -24,6 +24,8 @@ type jobsStep struct {
 	P    int     `json:"p"`
 	ID   int     `json:"id"`
 	Job  int     `json:"job"`
+	Text string  `json:"text"`
+	Q    string  `json:"q"`
 	List [][]int `json:"list"`
 }
 
@@ -56,6 +58,7 @@ func replayJobsPath(p jobsPath) (res replayResult) {
 			pr := new(lang.Process)
 			procs = append(procs, pr)
 			idx[pr] = len(procs) - 1
+			pr.VerifSetRaw(st.Text)
 			jobs.Add(pr)
 		case "Terminate":
 			procs[st.P].SetTerminatedState(true)
@@ -68,6 +71,14 @@ func replayJobsPath(p jobsPath) (res replayResult) {
 			}
 			if err == nil && idx[pr] != st.P {
 				return fail(i, "mismatch", "lookup", "Get(%d): code returned process #%d; spec #%d", st.ID, idx[pr], st.P)
+			}
+		case "GetByText":
+			pr, err := jobs.GetFromCommandLine(st.Q)
+			if (err != nil) != (st.K == "err") {
+				return fail(i, "mismatch", "lookup", "GetFromCommandLine(%q): code returned error=%v; spec %s", st.Q, err, st.K)
+			}
+			if err == nil && idx[pr] != st.P {
+				return fail(i, "mismatch", "lookup", "GetFromCommandLine(%q): code returned process #%d; spec #%d", st.Q, idx[pr], st.P)
 			}
 		case "GetLatest":
 			pr, err := jobs.GetLatest()
@@ -123,6 +134,7 @@ func jobsReplay(args []string) int {
 
 type jobsEvent struct {
 	Ev    string `json:"ev"`
+	S     string `json:"s"`
 	P     int    `json:"p"`
 	A     int    `json:"a"`
 	Slots []int  `json:"slots"`
@@ -143,6 +155,9 @@ func jobsDrive(args []string) int {
 	var mu sync.Mutex
 	var evs []jobsEvent
 	seqOf := map[int64]int{} // process token (its Id) -> number in order of addition
+	var textOf sync.Map       // process token -> the command line the driver gave it
+	texts := []string{"a", "b", "ab"}
+	queries := []string{"", "a", "b", "ab", "ba", "c"}
 	next := 0
 	rec := func(e jobsEvent) { mu.Lock(); evs = append(evs, e); mu.Unlock() }
 	tok := func(id int64) int {
@@ -160,7 +175,9 @@ func jobsDrive(args []string) int {
 			case "jobs.add":
 				next++
 				seqOf[n[0]] = next
-				evs = append(evs, jobsEvent{Ev: ev, P: next, A: int(n[1]), Slots: []int{}})
+				tx, _ := textOf.Load(n[0])
+				txs, _ := tx.(string)
+				evs = append(evs, jobsEvent{Ev: ev, S: txs, P: next, A: int(n[1]), Slots: []int{}})
 			case "jobs.gc.start", "jobs.lookup.start":
 				evs = append(evs, jobsEvent{Ev: ev, Slots: []int{}})
 			case "jobs.gc":
@@ -173,6 +190,8 @@ func jobsDrive(args []string) int {
 					}
 				}
 				evs = append(evs, jobsEvent{Ev: ev, Slots: sl})
+			case "jobs.bytext":
+				evs = append(evs, jobsEvent{Ev: ev, S: s, A: int(n[0]), P: tok(n[1]), Slots: []int{}})
 			case "jobs.get", "jobs.latest":
 				evs = append(evs, jobsEvent{Ev: ev, A: int(n[0]), P: tok(n[1]), Slots: []int{}})
 			}
@@ -198,6 +217,9 @@ func jobsDrive(args []string) int {
 				for k := 0; k < 2+rng.Intn(4); k++ {
 					p := new(lang.Process)
 					p.Id = uint32(atomic.AddInt64(&token, 1))
+					tx := texts[rng.Intn(len(texts))]
+					p.VerifSetRaw(tx)
+					textOf.Store(int64(p.Id), tx)
 					jobs.Add(p)
 					d := time.Duration(rng.Intn(300)) * time.Microsecond
 					inner.Add(1)
@@ -229,7 +251,9 @@ func jobsDrive(args []string) int {
 					return
 				default:
 				}
-				switch rng.Intn(3) {
+				switch rng.Intn(4) {
+				case 3:
+					jobs.GetFromCommandLine(queries[rng.Intn(len(queries))])
 				case 0:
 					jobs.Get(1 + rng.Intn(6))
 				case 1:
